@@ -264,8 +264,8 @@ def check_accept(case):
 
 
 SUBCHECKS = [
-    Sub("trace", check, strategy=lambda tier: case_strategy(tier), quick=400, thorough=6000,
+    Sub("trace", check, strategy=lambda tier: case_strategy(tier), quick=800, thorough=30000,
         min_share={"accepted-worse": 0.05, "move:atom-move": 0.3, "move:rotation": 0.3, "move:translation": 0.3,
                    "nontrivial": 0.03}),
-    Sub("acceptance", check_accept, strategy=lambda tier: accept_case(tier), quick=160, thorough=1600),
+    Sub("acceptance", check_accept, strategy=lambda tier: accept_case(tier), quick=160, thorough=3200),
 ]
